@@ -1,24 +1,51 @@
-// C20 — independent objects can be used from concurrent goroutines.
+// C20 — independent objects can be used from concurrent goroutines; the library has no hidden shared mutable
+// state; a call is a pure function of its inputs.
 //
-// rapid draws a pool of input files (harness-written progressive and fragmented files, a few files of the
-// repository) and a job list, one job per goroutine (2..16). Every job decodes "its" input from the SHARED,
-// read-only byte slice (mp4.DecodeFile over a private bytes.Reader, or mp4.DecodeFileSR over the shared
-// slice itself) and then works only on the structures it decoded: Info dump, Encode / EncodeSW in both
-// fragment encode modes, sample extraction, lazy decode + CopySampleData, InitProtect + EncryptFragment
-// (cenc, cbcs), DecryptInit + DecryptSegment, Annex-B conversions and parameter-set / SEI parsing on private
-// copies of the sample bytes. The box-decoder registry is never touched.
+// rapid draws a pool of inputs and a job list, one job per goroutine (2..16). Inputs:
+//   - files: harness-written progressive and fragmented files (video samples are length-prefixed NAL units, the
+//     video sample entry is the harvested avc1 of the repository or carries GENERATED AVC / HEVC parameter sets),
+//     files of the grammar generator internal/boxgen, a few files of the repository;
+//   - "box": one box of internal/boxgen (weighted towards the types whose decoders / Info / accessors read
+//     package-level tables or go through a second registry: prft, dac3, dec3, esds, uuid, sgpd, ...);
+//   - "nalus": a bundle of parameter sets, SEI NAL units, SEI payloads and samples in ONE shared slice;
+//   - near-duplicate pairs (class near-duplicate-inputs): every generated kind comes, one time in three, with a
+//     sibling that has the same leading bytes, the same box types and sizes, the same parameter-set ids, and
+//     different content behind them (picture size, QP, last bytes of every sample / of the box).
+//
+// Jobs: file jobs decode "their" input from the SHARED, read-only byte slice (mp4.DecodeFile over a private
+// bytes.Reader / bytes.Buffer, or mp4.DecodeFileSR over the shared slice itself) and then work only on the
+// structures they decoded: Info dump, Encode / EncodeSW in both fragment encode modes, sample extraction, lazy
+// decode + CopySampleData, InitProtect + EncryptFragment (cenc, cbcs), DecryptInit + DecryptSegment, Annex-B
+// conversions and parameter-set / SEI parsing on private copies of the sample bytes. Box jobs: DecodeBox /
+// DecodeBoxSR -> Info -> Encode / EncodeSW plus the table-reading accessors. Bundle jobs: parse the parameter
+// sets / SEI / slice headers straight from the shared slice, and the WRITER side: CreateEmptyInit + AddEmptyTrack
+// + SetAVCDescriptor / SetHEVCDescriptor (+ AAC / AC-3 / E-AC-3 descriptors), CreateFragment /
+// CreateMultiTrackFragment + AddFullSample(ToTrack) + MediaSegment.Encode, CreateAVCDecConfRec /
+// CreateHEVCDecConfRec / CreateAvcC / CreateHvcC, SEI message construction + WriteSEIMessages - all over
+// sub-slices of the shared slice (capacity not clipped, so that an append of the library lands in the shared
+// slice as well). The box-decoder registry is never touched.
 //
 // Oracle:
 //   - all jobs run in parallel goroutines released by one barrier; the number of race reports of the race
 //     detector (runtime.RaceErrors, package built with -race) must not grow; the report itself is captured from
 //     stderr and the library frames of the two accesses form the failure key;
-//   - every job is also run alone (sequential reference). By default AFTER the goroutines, so that the
+//   - every job is also run alone (first pass, order A). By default AFTER the goroutines, so that the
 //     goroutines meet the package state as cold as the process has it (a memoising or lazily initialised
 //     package-level variable would be warmed up by the reference run and then only be read); with seqFirst
 //     beforehand. After each single job every shared input slice must still equal its pristine copy (a decoder
-//     that aliases the caller's buffer and later writes through it is found here deterministically, race
-//     window or not; in-place crypto writes happen in assembly, which the race detector does not see);
-//   - every goroutine's output (bytes, error text, panic) equals the output of the same job run alone;
+//     that aliases the caller's buffer and later writes through it, a builder that writes into or appends to the
+//     caller's slices, is found here deterministically, race window or not; in-place crypto writes happen in
+//     assembly, which the race detector does not see);
+//   - every goroutine's outcome (bytes, error text, panic message) equals the outcome of the same job run alone.
+//     A job that panics alone, and the same way in its goroutine, is not a C20 matter (crash properties): class
+//     job-panics-alone, excluded and counted, message in the evidence notes;
+//   - history independence in the process: every job once more, alone, in REVERSE order, each right after polluter
+//     calls of the same action on (1) another input of the case, (2) its near-duplicate sibling, (3) a derived
+//     near-duplicate of its own input; the outcome must equal the first pass;
+//   - history independence across processes (fresh = 1 | 2, one case in five): the jobs are computed by this
+//     test binary started again as a worker - one process that runs them in reverse order, or one process per
+//     job - and must give the outcome of the first pass. This is the only comparison that sees a memo which keeps
+//     the FIRST value per key: it is self-consistent within one process whatever the order;
 //   - the shared slices still equal their pristine copies after the goroutines ran.
 //
 // The test binary is meant to be built with `go test -race`; without -race everything but the race reports is still checked.
@@ -49,7 +76,13 @@ import (
 	"verif/internal/mp4build"
 )
 
-func TestMain(m *testing.M) { harness.Main(m) }
+func TestMain(m *testing.M) {
+	if os.Getenv(workerEnv) != "" {
+		workerMain() // a fresh process started by checkFresh: no test runs, no evidence is written
+		return
+	}
+	harness.Main(m)
+}
 
 func init() {
 	harness.RegisterReplay("jobmix", harness.Replayer(checkJobMix))
@@ -79,7 +112,7 @@ var avoidKnown = map[string]bool{
 }
 
 type input struct {
-	Kind    string                `json:"kind"`           // "prog" | "frag" | "repo" | "synth"
+	Kind    string                `json:"kind"`           // "prog" | "frag" | "repo" | "synth" | "box" | "nalus"
 	Data    harness.HexBytes      `json:"data,omitempty"` // "synth": a file written by the grammar generator internal/boxgen
 	Tracks  []mp4build.Track      `json:"tracks,omitempty"`
 	Layout  *mp4build.ProgLayout  `json:"layout,omitempty"`
@@ -87,6 +120,12 @@ type input struct {
 	FLayout *fragbuild.FileLayout `json:"flayout,omitempty"`
 	Paths   []string              `json:"paths,omitempty"` // "repo": files of the checkout, concatenated (init + segment)
 	Key     string                `json:"key,omitempty"`   // hex key of an encrypted repository file
+	Typ     string                `json:"typ,omitempty"`   // "box": the type the single box in Data was generated for
+	Codec   string                `json:"codec,omitempty"` // "nalus": "avc" | "hevc"
+	Items   []psItem              `json:"items,omitempty"` // "nalus": parameter sets, SEI, samples in one shared slice
+	// Sib: 1 + index of the near-duplicate sibling of this input (same leading bytes / same ids and sizes,
+	// different content behind them), 0: none
+	Sib int `json:"sib,omitempty"`
 }
 
 type job struct {
@@ -103,13 +142,23 @@ type jobMixCase struct {
 	// SeqFirst: compute the sequential reference before the goroutines run (default: afterwards)
 	SeqFirst bool `json:"seqFirst,omitempty"`
 	NoAvoid  bool `json:"noAvoid,omitempty"`
+	// Fresh: 1 = every job is also computed in ONE fresh process (jobs in reverse order), 2 = every job in a
+	// fresh process of its own; the results must equal those of this process. 0: no fresh process.
+	Fresh int `json:"fresh,omitempty"`
 }
-
-var allActs = []string{"decode", "info", "encode", "encodeSW", "samples", "lazycopy", "encrypt-cenc", "encrypt-cbcs", "decrypt", "annexb", "params", "mutate", "brands"}
 
 func (j job) crypt() bool { return j.Act == "decrypt" || strings.HasPrefix(j.Act, "encrypt-") }
 
 func (j job) apiName() string {
+	if isNaluAct(j.Act) {
+		return j.Act
+	}
+	if j.Act == "box" {
+		if j.SR {
+			return "DecodeBoxSR+Info+Encode"
+		}
+		return "DecodeBox+Info+Encode"
+	}
 	dec := "DecodeFile"
 	if j.SR && j.Act != "lazycopy" {
 		dec = "DecodeFileSR"
@@ -124,8 +173,13 @@ func (j job) apiName() string {
 }
 
 type stats struct {
-	skipped  map[string]int64
-	outcomes map[string]int64 // how the jobs ended when run alone
+	skipped     map[string]int64
+	outcomes    map[string]int64 // how the jobs ended when run alone
+	panicsAlone int64
+	panicMsgs   []string // api + message of the jobs that panic alone
+	polluters   int64    // polluter calls made in the reverse pass
+	freshProcs  int64    // fresh processes started
+	freshJobs   int64    // jobs compared with a fresh process
 }
 
 func errClass(s string) string {
@@ -204,11 +258,13 @@ func (in *input) materialise() ([]byte, error) {
 			return nil, err
 		}
 		return fragbuild.Concat(init, segs, truth), nil
-	case "synth":
+	case "synth", "box":
 		if len(in.Data) == 0 {
 			return nil, fmt.Errorf("no data")
 		}
 		return clone(in.Data), nil
+	case "nalus":
+		return bundleBytes(in.Items)
 	case "repo":
 		var out []byte
 		for _, p := range in.Paths {
@@ -344,9 +400,26 @@ func videoTracks(f *mp4.File, max int) ([]videoTrack, error) {
 	return out, nil
 }
 
+// runJobRecovered is runJob with a panic turned into a result (compared like output and error text).
+func runJobRecovered(j job, in *input, shared []byte, private bool) (res result) {
+	defer func() {
+		if r := recover(); r != nil {
+			res = result{panic: fmt.Sprintf("panic: %v", r)}
+		}
+	}()
+	return runJob(j, in, shared, private)
+}
+
 // runJob executes one job on the shared bytes. private: hand DecodeFileSR a private copy instead.
-func runJob(j job, shared []byte, key string, private bool) (res result) {
-	// a panic is not recovered here: alone it reaches harness.Guarded, in a goroutine it is recovered and compared
+func runJob(j job, in *input, shared []byte, private bool) (res result) {
+	// a panic is not recovered here (runJobRecovered)
+	key := in.Key
+	if isNaluAct(j.Act) {
+		return runNaluJob(j, in.Codec, shared)
+	}
+	if j.Act == "box" {
+		return runBoxJob(j, shared)
+	}
 	var w bytes.Buffer
 	fail := func(what string, err error) result {
 		return result{out: w.Bytes(), err: what + ": " + err.Error()}
@@ -561,18 +634,7 @@ func runJob(j job, shared []byte, key string, private bool) (res result) {
 		}
 		for ti, vt := range vts {
 			for si, s := range vt.samples {
-				// the Annex-B conversions work in place: private copies
-				nalus, err := avc.GetNalusFromSample(clone(s))
-				fmt.Fprintf(&w, "t%d s%d nalus=%d err=%v\n", ti, si, len(nalus), err)
-				bs := avc.ConvertSampleToByteStream(clone(s))
-				w.Write(bs)
-				for _, n := range avc.ExtractNalusFromByteStream(bs) {
-					fmt.Fprintf(&w, " n%d", len(n))
-				}
-				back := avc.ConvertByteStreamToNaluSample(clone(bs))
-				w.Write(back)
-				three := bytes.ReplaceAll(clone(bs), []byte{0, 0, 0, 1}, []byte{0, 0, 1})
-				w.Write(avc.ConvertByteStreamToNaluSample(three))
+				annexbOf(&w, fmt.Sprintf("t%d s%d", ti, si), s)
 			}
 		}
 	case "params":
@@ -701,9 +763,37 @@ func checkJobMix(c jobMixCase) *harness.Fail {
 	return evalJobMix(&c, &st)
 }
 
-func evalJobMix(c *jobMixCase, st *stats) *harness.Fail {
+// privateFlags: which jobs get a private copy of their input (avoided known findings).
+func privateFlags(c *jobMixCase, st *stats) []bool {
+	private := make([]bool, len(c.Jobs))
+	for i, j := range c.Jobs {
+		if j.SR && (j.crypt() || j.Act == "mutate") && c.avoid(st, "sr-decode-crypt-writes-shared-input") {
+			private[i] = true // DecodeFileSR aliases the input as MdatBox.Data (known finding): writing through it is the same mechanism
+		}
+	}
+	return private
+}
+
+func (c *jobMixCase) validate() *harness.Fail {
 	if len(c.Jobs) == 0 || len(c.Inputs) == 0 {
 		return harness.Failf("harness|c20|bad-case", "no jobs or inputs")
+	}
+	for _, j := range c.Jobs {
+		if j.Input < 0 || j.Input >= len(c.Inputs) {
+			return harness.Failf("harness|c20|bad-case", "job input %d of %d", j.Input, len(c.Inputs))
+		}
+	}
+	for i, in := range c.Inputs {
+		if in.Sib < 0 || in.Sib > len(c.Inputs) || in.Sib == i+1 {
+			return harness.Failf("harness|c20|bad-case", "input %d: sibling %d", i, in.Sib)
+		}
+	}
+	return nil
+}
+
+func evalJobMix(c *jobMixCase, st *stats) *harness.Fail {
+	if fail := c.validate(); fail != nil {
+		return fail
 	}
 	shared := make([][]byte, len(c.Inputs))
 	pristine := make([][]byte, len(c.Inputs))
@@ -714,17 +804,7 @@ func evalJobMix(c *jobMixCase, st *stats) *harness.Fail {
 		}
 		shared[i], pristine[i] = b, clone(b)
 	}
-	for _, j := range c.Jobs {
-		if j.Input < 0 || j.Input >= len(c.Inputs) {
-			return harness.Failf("harness|c20|bad-case", "job input %d of %d", j.Input, len(c.Inputs))
-		}
-	}
-	private := make([]bool, len(c.Jobs))
-	for i, j := range c.Jobs {
-		if j.SR && (j.crypt() || j.Act == "mutate") && c.avoid(st, "sr-decode-crypt-writes-shared-input") {
-			private[i] = true // DecodeFileSR aliases the input as MdatBox.Data (known finding): writing through it is the same mechanism
-		}
-	}
+	private := privateFlags(c, st)
 	modified := func() int {
 		for i := range shared {
 			if !bytes.Equal(shared[i], pristine[i]) {
@@ -736,27 +816,39 @@ func evalJobMix(c *jobMixCase, st *stats) *harness.Fail {
 
 	ref := make([]result, len(c.Jobs))
 	conc := make([]result, len(c.Jobs))
+	rev := make([]result, len(c.Jobs))
 
-	// the jobs alone, one after the other; every shared slice must survive every single job
+	inputModified := func(i int, j job, phase string, k int) *harness.Fail {
+		at := diffAt(shared[k], pristine[k])
+		return harness.Failf("C20|"+j.apiName()+"|shared input slice modified",
+			"job g%d %s: input %d (%d bytes) differs from its pristine copy from offset %d on: now %s, was %s\njobs:\n%s",
+			i, phase, k, len(pristine[k]), at, harness.HexTrunc(shared[k][at:], 16), harness.HexTrunc(pristine[k][at:], 16), jobList(c))
+	}
+
+	// the jobs alone, one after the other (order A); every shared slice must survive every single job. A job that
+	// panics alone is a matter of the crash properties (C04/C16): the panic is its outcome here, counted in class
+	// job-panics-alone, and compared with the outcome of the goroutine like output and error text.
 	runAlone := func() *harness.Fail {
 		for i, j := range c.Jobs {
-			ref[i] = runJob(j, shared[j.Input], c.Inputs[j.Input].Key, private[i]) // a panic here reaches harness.Guarded
+			ref[i] = runJobRecovered(j, &c.Inputs[j.Input], shared[j.Input], private[i])
 			if k := modified(); k >= 0 && raceOnly {
 				copy(shared[k], pristine[k]) // development aid: let the concurrent phase show the conflict itself
 			} else if k >= 0 {
-				at := diffAt(shared[k], pristine[k])
-				return harness.Failf("C20|"+j.apiName()+"|shared input slice modified",
-					"job g%d alone: input %d (%d bytes) differs from its pristine copy from offset %d on: now %s, was %s\njobs:\n%s",
-					i, k, len(pristine[k]), at, harness.HexTrunc(shared[k][at:], 16), harness.HexTrunc(pristine[k][at:], 16), jobList(c))
+				return inputModified(i, j, "alone", k)
 			}
 		}
 		if st.outcomes == nil {
 			st.outcomes = map[string]int64{}
 		}
 		for i, j := range c.Jobs {
-			if ref[i].err == "" {
+			switch {
+			case ref[i].panic != "":
+				st.outcomes["job-panics-alone:"+j.apiName()+":"+errClass(ref[i].panic)]++
+				st.panicsAlone++
+				st.panicMsgs = append(st.panicMsgs, j.apiName()+": "+firstLine(ref[i].panic, 160))
+			case ref[i].err == "":
 				st.outcomes["job-completed:"+j.Act]++
-			} else {
+			default:
 				st.outcomes["job-ended-with-error:"+j.Act+":"+errClass(ref[i].err)]++
 			}
 		}
@@ -774,14 +866,9 @@ func evalJobMix(c *jobMixCase, st *stats) *harness.Fail {
 				wg.Add(1)
 				go func(i int) {
 					defer wg.Done()
-					defer func() {
-						if r := recover(); r != nil {
-							conc[i].panic = fmt.Sprintf("panic: %v", r)
-						}
-					}()
 					j := c.Jobs[i]
 					<-start
-					conc[i] = runJob(j, shared[j.Input], c.Inputs[j.Input].Key, private[i])
+					conc[i] = runJobRecovered(j, &c.Inputs[j.Input], shared[j.Input], private[i])
 				}(i)
 			}
 			close(start)
@@ -792,6 +879,51 @@ func evalJobMix(c *jobMixCase, st *stats) *harness.Fail {
 		if after > before {
 			fmt.Printf("C20-RACE %d report(s) during this job list:\n%s", after-before, jobList(c))
 			return harness.Failf("C20|race|"+raceKey(report), "%d data race report(s) while these goroutines ran:\n%s%s", after-before, jobList(c), trimReport(report))
+		}
+		return nil
+	}
+
+	// History independence: every job once more, alone, in REVERSE order, each one right after "polluter" calls
+	// of the same action on other inputs: (1) another input of the case (different leading bytes: evicts a
+	// one-entry cache), (2) the near-duplicate sibling of the job's input if the case has one, (3) a derived
+	// near-duplicate of the job's input (same leading bytes and sizes, different content behind them). A
+	// memoising package-level variable keyed on a prefix / an id / a box type and size answers the job with the
+	// polluter's value. The polluters' results are not looked at.
+	derived := map[int][]byte{}
+	runReverse := func() *harness.Fail {
+		for i := len(c.Jobs) - 1; i >= 0; i-- {
+			j := c.Jobs[i]
+			in := &c.Inputs[j.Input]
+			if len(c.Inputs) > 1 {
+				k := (j.Input + 1) % len(c.Inputs)
+				if k+1 == in.Sib {
+					k = (k + 1) % len(c.Inputs)
+				}
+				if k != j.Input {
+					runJobRecovered(j, &c.Inputs[k], shared[k], private[i])
+					st.polluters++
+				}
+			}
+			if in.Sib > 0 {
+				runJobRecovered(j, &c.Inputs[in.Sib-1], shared[in.Sib-1], private[i])
+				st.polluters++
+			}
+			d, ok := derived[j.Input]
+			if !ok {
+				d = nearDupBytes(pristine[j.Input])
+				derived[j.Input] = d
+			}
+			if d != nil {
+				runJobRecovered(j, in, clone(d), true)
+				st.polluters++
+			}
+			if k := modified(); k >= 0 {
+				return inputModified(i, j, "as a polluter (same action on another input)", k)
+			}
+			rev[i] = runJobRecovered(j, in, shared[j.Input], private[i])
+			if k := modified(); k >= 0 {
+				return inputModified(i, j, "alone (reverse pass)", k)
+			}
 		}
 		return nil
 	}
@@ -825,22 +957,59 @@ func evalJobMix(c *jobMixCase, st *stats) *harness.Fail {
 		return harness.Failf("C20|concurrent run|shared input slice modified", "input %d differs from its pristine copy after the goroutines ran, but no job modifies it alone\njobs:\n%s", concModified, jobList(c))
 	}
 
-	// 3. every goroutine got what it gets alone
-	for i, j := range c.Jobs {
-		r, g := ref[i], conc[i]
+	differs := func(i int, j job, g, r result, rel, what, other string) *harness.Fail {
 		switch {
 		case g.panic != r.panic:
-			return harness.Failf("C20|"+j.apiName()+"|panic only in the concurrent run", "g%d: concurrent %q, alone %q\njobs:\n%s", i, g.panic, r.panic, jobList(c))
+			return harness.Failf("C20|"+j.apiName()+"|panic "+rel, "g%d: %s %q, %s %q\njobs:\n%s", i, what, g.panic, other, r.panic, jobList(c))
 		case g.err != r.err:
-			return harness.Failf("C20|"+j.apiName()+"|error differs from the run alone", "g%d: concurrent %q, alone %q\njobs:\n%s", i, g.err, r.err, jobList(c))
+			return harness.Failf("C20|"+j.apiName()+"|error "+rel, "g%d: %s %q, %s %q\njobs:\n%s", i, what, g.err, other, r.err, jobList(c))
 		case !bytes.Equal(g.out, r.out):
 			at := diffAt(g.out, r.out)
-			return harness.Failf("C20|"+j.apiName()+"|result differs from the run alone", "g%d: %d bytes concurrently, %d bytes alone, first difference at %d: %s vs %s\njobs:\n%s",
-				i, len(g.out), len(r.out), at, harness.HexTrunc(g.out[at:], 16), harness.HexTrunc(r.out[at:], 16), jobList(c))
+			return harness.Failf("C20|"+j.apiName()+"|result "+rel, "g%d: %d bytes %s, %d bytes %s, first difference at %d: %s vs %s\njobs:\n%s",
+				i, len(g.out), what, len(r.out), other, at, harness.HexTrunc(g.out[at:], 16), harness.HexTrunc(r.out[at:], 16), jobList(c))
+		}
+		return nil
+	}
+
+	// every goroutine got what it gets alone (a panic only in one of the two runs included)
+	for i, j := range c.Jobs {
+		g, r := conc[i], ref[i]
+		if g.panic != r.panic {
+			return harness.Failf("C20|"+j.apiName()+"|panic only in the concurrent run", "g%d: concurrent %q, alone %q\njobs:\n%s", i, g.panic, r.panic, jobList(c))
+		}
+		if fail := differs(i, j, g, r, "differs from the run alone", "concurrently", "alone"); fail != nil {
+			return fail
+		}
+	}
+
+	// every job gives the same result whatever was computed before it
+	if fail := runReverse(); fail != nil {
+		return fail
+	}
+	for i, j := range c.Jobs {
+		if fail := differs(i, j, rev[i], ref[i], "depends on the calls made before it", "after the polluters (reverse pass)", "in the first pass alone"); fail != nil {
+			return fail
+		}
+	}
+
+	// ... and the same result as a process that has computed nothing else before
+	if c.Fresh != 0 {
+		if fail := checkFresh(c, ref, st); fail != nil {
+			return fail
 		}
 	}
 
 	return nil
+}
+
+func firstLine(s string, max int) string {
+	if i := strings.IndexByte(s, '\n'); i >= 0 {
+		s = s[:i]
+	}
+	if len(s) > max {
+		s = s[:max] + "..."
+	}
+	return s
 }
 
 func sortedKeys(m map[string]int64) []string {
@@ -941,33 +1110,117 @@ var repoPool = []repoEntry{
 }
 
 var (
-	progActs    = []string{"decode", "info", "encode", "encodeSW", "samples", "lazycopy", "params", "mutate", "brands"}
-	fragActs    = []string{"decode", "info", "encode", "encodeSW", "samples", "params", "mutate", "brands"}
+	progActs    = []string{"decode", "info", "encode", "encodeSW", "samples", "lazycopy", "params", "annexb", "mutate", "brands"}
+	fragActs    = []string{"decode", "info", "encode", "encodeSW", "samples", "params", "annexb", "mutate", "brands"}
 	synthActs   = []string{"decode", "info", "info", "encode", "encodeSW", "mutate", "brands"}
 	fragEncActs = []string{"decode", "info", "encode", "encodeSW", "samples", "encrypt-cenc", "encrypt-cbcs", "encrypt-cenc", "encrypt-cbcs"}
 )
 
-func genInput(t *rapid.T) (input, []string) {
-	switch rapid.SampledFrom([]string{"prog", "prog", "frag", "frag", "fragenc", "fragenc", "repo", "repo", "synth", "synth"}).Draw(t, "inputKind") {
+// genInput draws one input, or an input and its near-duplicate sibling (dup): same leading bytes, same box types
+// and sizes / same parameter-set ids, different content behind them.
+func genInput(t *rapid.T) ([]input, []string) {
+	kind := rapid.SampledFrom([]string{"prog", "prog", "frag", "frag", "fragenc", "fragenc", "repo", "repo", "synth", "synth", "box", "box", "nalus", "nalus"}).Draw(t, "inputKind")
+	dup := false
+	if kind != "repo" && kind != "fragenc" {
+		dup = rapid.IntRange(0, 2).Draw(t, "nearDuplicate") == 0
+	}
+	switch kind {
+	case "box":
+		return genBoxInputs(t, dup), boxActs
+	case "nalus":
+		return genNalusInputs(t, dup), nalusActs
 	case "synth":
 		// every box type and version/flag shape of the grammar generator (sample groups of every grouping type,
 		// sample entries, uuid boxes, ...): registries and per-type decoders are exercised concurrently
 		kind := rapid.SampledFrom([]string{"prog", "init", "media", "frag", "frag"}).Draw(t, "synthKind")
-		return input{Kind: "synth", Data: boxgen.File(t, kind, boxgen.Opt{})}, synthActs
+		a := input{Kind: "synth", Data: boxgen.File(t, kind, boxgen.Opt{})}
+		if !dup {
+			return []input{a}, synthActs
+		}
+		return []input{a, {Kind: "synth", Data: tweakTail(a.Data, rapid.Byte().Draw(t, "tailXor"))}}, synthActs
 	case "prog":
-		tracks := mp4build.GenTracks(t, mp4build.GenOpt{MaxSamples: 10, MaxSampleSize: 40, MaxTracks: 2})
+		// the video track carries the harvested avc1 entry of the repository, or generated parameter sets
+		// (always for a near-duplicate pair); its samples are length-prefixed NAL units
+		opt := mp4build.GenOpt{MaxSamples: 10, MaxSampleSize: 40, MaxTracks: 2}
+		var pa, pb psSet
+		codec := "avc"
+		custom := dup || rapid.Bool().Draw(t, "generatedPS")
+		if custom {
+			pa, pb = genPSPair(t)
+			opt.VideoStsd, codec = pa.stsd(), pa.codec
+		}
+		tracks := mp4build.GenTracks(t, opt)
+		for ti := range tracks {
+			if tracks[ti].Handler != "vide" {
+				continue
+			}
+			if custom {
+				tracks[ti].Width, tracks[ti].Height = uint16(pa.width), uint16(pa.height)
+			}
+			for si := range tracks[ti].Samples {
+				naluStructure(t, codec, tracks[ti].Samples[si].Data)
+			}
+		}
 		lay := mp4build.GenProgLayout(t, tracks)
-		return input{Kind: "prog", Tracks: tracks, Layout: &lay}, progActs
+		a := input{Kind: "prog", Tracks: tracks, Layout: &lay}
+		if !dup {
+			return []input{a}, progActs
+		}
+		x := rapid.Byte().Draw(t, "tailXor")
+		b := deepCopy(a)
+		for ti := range b.Tracks {
+			if b.Tracks[ti].Handler == "vide" {
+				b.Tracks[ti].StsdRaw = pb.stsd()
+				b.Tracks[ti].Width, b.Tracks[ti].Height = uint16(pb.width), uint16(pb.height)
+			}
+			for si := range b.Tracks[ti].Samples {
+				b.Tracks[ti].Samples[si].Data = tweakTail(b.Tracks[ti].Samples[si].Data, x)
+			}
+		}
+		return []input{a, b}, progActs
 	case "frag":
-		v, a, err := fragStsd()
+		v, au, err := fragStsd()
 		if err != nil {
 			t.Fatalf("harvest: %v", err)
 		}
+		var pa, pb psSet
+		codec := "avc"
+		custom := dup || rapid.Bool().Draw(t, "generatedPS")
+		if custom {
+			pa, pb = genPSPair(t)
+			v, codec = pa.stsd(), pa.codec
+		}
 		// NoNonEmsgAtTopSidxAnchor: mp4.DecodeFile panics (finding of the fragment checks)
-		opt := fragbuild.GenOpt{VideoStsd: v, AudioStsd: a, NoNonEmsgAtTopSidxAnchor: true, MaxSamples: 6, MaxSegments: 2, MaxFrags: 2}
+		opt := fragbuild.GenOpt{VideoStsd: v, AudioStsd: au, NoNonEmsgAtTopSidxAnchor: true, MaxSamples: 6, MaxSegments: 2, MaxFrags: 2}
 		tracks := fragbuild.GenTracks(t, opt)
+		for ti := range tracks {
+			if tracks[ti].Handler != "vide" {
+				continue
+			}
+			if custom {
+				tracks[ti].Width, tracks[ti].Height = uint16(pa.width), uint16(pa.height)
+			}
+			for si := range tracks[ti].Samples {
+				naluStructure(t, codec, tracks[ti].Samples[si].Data)
+			}
+		}
 		lay := fragbuild.GenLayout(t, tracks, opt)
-		return input{Kind: "frag", FTracks: tracks, FLayout: &lay}, fragActs
+		a := input{Kind: "frag", FTracks: tracks, FLayout: &lay}
+		if !dup {
+			return []input{a}, fragActs
+		}
+		x := rapid.Byte().Draw(t, "tailXor")
+		b := deepCopy(a)
+		for ti := range b.FTracks {
+			if b.FTracks[ti].Handler == "vide" {
+				b.FTracks[ti].StsdRaw = pb.stsd()
+				b.FTracks[ti].Width, b.FTracks[ti].Height = uint16(pb.width), uint16(pb.height)
+			}
+			for si := range b.FTracks[ti].Samples {
+				b.FTracks[ti].Samples[si].Data = tweakTail(b.FTracks[ti].Samples[si].Data, x)
+			}
+		}
+		return []input{a, b}, fragActs
 	case "fragenc":
 		// one audio track, every fragment one traf with one trun: what InitProtect/EncryptFragment accept
 		_, a, err := fragStsd()
@@ -995,7 +1248,7 @@ func genInput(t *rapid.T) (input, []string) {
 			seg.Frags = append(seg.Frags, fragbuild.Frag{Runs: []fragbuild.Run{{Track: 0, N: cnt}}, MdatLarge: rapid.IntRange(0, 4).Draw(t, "mdatLarge") == 0})
 		}
 		lay.Segments = []fragbuild.Segment{seg}
-		return input{Kind: "frag", FTracks: []fragbuild.Track{tr}, FLayout: &lay}, fragEncActs
+		return []input{{Kind: "frag", FTracks: []fragbuild.Track{tr}, FLayout: &lay}}, fragEncActs
 	default:
 		var idx []int
 		for i, e := range repoPool {
@@ -1004,19 +1257,25 @@ func genInput(t *rapid.T) (input, []string) {
 			}
 		}
 		e := repoPool[rapid.SampledFrom(idx).Draw(t, "repoFile")]
-		return e.in, e.acts
+		return []input{e.in}, e.acts
 	}
 }
 
 func genJobMix(t *rapid.T) jobMixCase {
 	var c jobMixCase
 	nIn := rapid.IntRange(1, 3).Draw(t, "nInputs")
-	acts := make([][]string, nIn)
+	var acts [][]string
 	for i := 0; i < nIn; i++ {
-		in, a := genInput(t)
-		c.Inputs = append(c.Inputs, in)
-		acts[i] = a
+		ins, a := genInput(t)
+		if len(ins) == 2 {
+			ins[0].Sib, ins[1].Sib = len(c.Inputs)+2, len(c.Inputs)+1
+		}
+		for _, in := range ins {
+			c.Inputs = append(c.Inputs, in)
+			acts = append(acts, a)
+		}
 	}
+	nIn = len(c.Inputs)
 	g := rapid.SampledFrom([]int{2, 2, 3, 3, 4, 4, 5, 6, 8, 8, 12, 16}).Draw(t, "goroutines")
 	heavy := 0
 	for i := 0; i < g; i++ {
@@ -1033,14 +1292,25 @@ func genJobMix(t *rapid.T) jobMixCase {
 			}
 		}
 		j := job{Input: k, Act: rapid.SampledFrom(acts[k]).Draw(t, "act")}
+		if sib := c.Inputs[k].Sib; sib > 0 && i > 0 && c.Jobs[i-1].Input == sib-1 && rapid.Bool().Draw(t, "sameActAsSibling") {
+			j.Act = c.Jobs[i-1].Act // the same call on the two near-duplicates, one right after the other
+		}
 		j.SR = rapid.Bool().Draw(t, "sr")
 		if !j.SR && j.Act != "lazycopy" {
 			j.Buf = rapid.IntRange(0, 2).Draw(t, "buf") == 0
 		}
-		j.Mode = rapid.IntRange(0, 1).Draw(t, "mode")
+		if isNaluAct(j.Act) {
+			j.SR, j.Buf = false, false
+			j.Mode = rapid.IntRange(0, 1<<14-1).Draw(t, "buildMode")
+		} else {
+			j.Mode = rapid.IntRange(0, 1).Draw(t, "mode")
+		}
 		c.Jobs = append(c.Jobs, j)
 	}
 	c.SeqFirst = rapid.IntRange(0, 3).Draw(t, "seqFirst") == 0
+	// fresh processes are expensive (a race-instrumented binary starts): three cases in sixteen, mostly one process
+	// for all jobs
+	c.Fresh = rapid.SampledFrom([]int{0, 0, 0, 0, 0, 0, 0, 0, 0, 0, 0, 0, 0, 1, 1, 2}).Draw(t, "fresh")
 	return c
 }
 
@@ -1063,6 +1333,22 @@ func classify(c *jobMixCase) (nontrivial bool, classes []string) {
 		perInput[j.Input][j.apiName()] = true
 		in := c.Inputs[j.Input]
 		set["input-"+in.Kind] = true
+		if in.Kind == "nalus" {
+			set["input-nalus-"+in.Codec] = true
+		}
+		if in.Kind == "box" {
+			for _, tt := range tableBoxTypes {
+				if tt == in.Typ {
+					set["box-type-with-package-level-table-or-second-registry"] = true
+				}
+			}
+		}
+		if strings.HasPrefix(j.Act, "build-") {
+			set["writer-side-job-on-shared-caller-slices"] = true
+		}
+		if j.Act == "annexb" && (in.Kind == "prog" || in.Kind == "frag") {
+			set["annexb-on-generated-"+in.Kind] = true
+		}
 		if j.Act == "encode" || j.Act == "encodeSW" {
 			set[fmt.Sprintf("%s-mode-%d", j.Act, j.Mode&1)] = true
 		}
@@ -1071,6 +1357,28 @@ func classify(c *jobMixCase) (nontrivial bool, classes []string) {
 		if len(kinds) >= 2 {
 			nontrivial = true
 		}
+	}
+	// near-duplicate inputs: both siblings of a pair have a job; strongest when it is the same action
+	for i, in := range c.Inputs {
+		if in.Sib == 0 || in.Sib-1 < i {
+			continue
+		}
+		set["near-duplicate-pair-in-case"] = true
+		if perInput[i] != nil && perInput[in.Sib-1] != nil {
+			set["near-duplicate-inputs"] = true
+			nontrivial = true
+			for api := range perInput[i] {
+				if perInput[in.Sib-1][api] {
+					set["near-duplicate-inputs-same-action-on-both"] = true
+				}
+			}
+		}
+	}
+	switch c.Fresh {
+	case 1:
+		set["fresh-process-all-jobs-reverse-order"] = true
+	case 2:
+		set["fresh-process-per-job"] = true
 	}
 	g := len(c.Jobs)
 	switch {
@@ -1103,6 +1411,24 @@ func TestJobMix(t *testing.T) {
 		t.Log("built without -race: only result comparison and input integrity are checked")
 		harness.Rec.Note("built without -race")
 	}
+	if harness.E.Shard == 0 {
+		// static inventory of the package-level variables of the checkout (see inventory_test.go)
+		listed, unlisted, gone, nErr, err := inventoryReport(harness.E.RepoDir)
+		if err != nil {
+			t.Logf("inventory: %v", err)
+			harness.Rec.Note("package-level inventory failed: " + err.Error())
+		}
+		harness.Rec.ClassN("package-level-vars:error-values", int64(nErr))
+		harness.Rec.ClassN("package-level-vars:listed-with-a-job-kind-that-reaches-them", int64(len(listed)))
+		harness.Rec.ClassN("package-level-vars:NOT-listed", int64(len(unlisted)))
+		for _, v := range unlisted {
+			fmt.Printf("C20-INVENTORY unlisted package-level variable: %s\n", v)
+			harness.Rec.Note("package-level variable of the library that is not in the C20 inventory (no job kind is known to reach it): " + v)
+		}
+		for _, v := range gone {
+			harness.Rec.Note("C20 inventory lists a package-level variable that the checkout does not have: " + v)
+		}
+	}
 	harness.RunRapid(t, "jobmix", func(rt *rapid.T) {
 		c := genJobMix(rt)
 		raw, _ := json.Marshal(c)
@@ -1116,6 +1442,17 @@ func TestJobMix(t *testing.T) {
 		f := harness.Guarded(func() *harness.Fail { return evalJobMix(&c, &st) })
 		for _, k := range sortedKeys(st.outcomes) {
 			harness.Rec.ClassN(k, st.outcomes[k])
+		}
+		harness.Rec.ClassN("polluter-calls-in-reverse-pass", st.polluters)
+		harness.Rec.ClassN("fresh-processes-started", st.freshProcs)
+		harness.Rec.ClassN("jobs-compared-with-fresh-process", st.freshJobs)
+		if st.panicsAlone > 0 {
+			// not a C20 matter when the goroutine panics the same way (crash properties C04/C16): excluded, counted
+			harness.Rec.Exclude("job-panics-alone")
+			harness.Rec.ClassN("job-panics-alone", st.panicsAlone)
+			for _, m := range st.panicMsgs {
+				harness.Rec.Note("job-panics-alone: " + m)
+			}
 		}
 		names := make([]string, 0, len(st.skipped))
 		for name := range st.skipped {
